@@ -8,18 +8,11 @@
    "subject" field of a manifest ([subj], JSON decoding is external). *)
 From Oras Require Import Base.Prelude Base.Regex Generated.GC20 Model.Reference.
 
-<<<<<<< HEAD
-(* C13 runs with every registered hash implementation linked (sha256, sha384, sha512): C20's
-   [avail] parameter (which digest algorithms are available) is instantiated with "all". *)
-Notation valid_digest := (Reference.valid_digest (fun _ => true)).
-Notation repo_parse := (Reference.repo_parse (fun _ => true)).
-=======
 (* Every digest algorithm go-digest knows is linked into the client (the harness imports
    crypto/sha256 and crypto/sha512): C20's availability parameter is instantiated once. *)
 Definition all_algs (_ : str) : bool := true.
 Definition valid_digest : str -> bool := Reference.valid_digest all_algs.
 Definition repo_parse : (str -> bool) -> str -> str -> str -> option reference := Reference.repo_parse all_algs.
->>>>>>> b/C13
 
 (* ---------- descriptors, requests, responses ---------- *)
 
